@@ -3,7 +3,8 @@
 P (unbounded over all lists of ranges, reach and limit values):
   shatter : consecutive pieces exactly tiling [address, address+count), each 1..L long, terminates
   merge   : loop invariants over a ghost coverage set `cov` and the end `hi` of the last emitted piece
-B : all lists of <= 4 ranges over a small window x reach/limit values against a set-based oracle.
+B : all lists of <= 4 ranges over a small window x reach/limit values against a set-based oracle;
+    the real poller thread over scheduled up/down cycles with one persistently failing register.
 """
 import itertools
 import random
@@ -25,12 +26,13 @@ LEVEL_TEXT = ('Deductive proof over the real remote/plc_modbus.py shatter and me
               'set-based oracle stands beside it (not counted).')
 LEVEL_NOTE = ('Trusted: sorted() returns an ordered permutation (T2 axiom, both directions by index maps); pyvc encoding; z3/cvc5. '
               'Domain: non-empty ranges (count >= 1) with non-negative addresses, each inside one 10000-register bank; '
-              'poller_modbus._poller (thread, device I/O) is not under contract.')
+              'poller_modbus._poller (thread, device I/O) is not under contract: the real thread is driven for 2..5 poll cycles over a client whose _read '
+              'answers or raises per a schedule (bounded: every merged range attempted in every cycle, online follows the cycle outcome, only requested registers stored).')
 TECHNIQUE = 'loop invariants + ghost coverage set on the real merge/shatter generators, VCs from the AST, z3/cvc5; bounded oracle enumeration as stand-in'
 
 TRUSTED = ['T2 sorted(xs) is an ordered permutation of xs', 'generator callee view derived mechanically from the ghost-style contract of shatter']
 ASSUMPTIONS = ['ranges are non-empty (count >= 1), addresses >= 0, each range inside one 10000-register bank',
-               'reach and limit are None or >= 0', 'poller_modbus._poller is outside the contracts']
+               'reach and limit are None or >= 0', 'poller_modbus._poller is outside the contracts (bounded histories of the real thread only)']
 
 COIL = "(1 <= A <= 9999 or 10001 <= A <= 19999 or 100001 <= A <= 165536)"
 # over the *initial* arguments: inside the loop `limit` and `address` are reassigned locals
@@ -288,6 +290,85 @@ def enum_inputs(tier, rng):
                             yield rs, reach, limit
 
 
+
+# ------------------------------------------------------------------------------------------------ the poll loop (anchor 3), bounded
+def poller_history(addresses, bad, reach, schedule, rate=0.004):
+    """Runs the real poller_modbus thread (real __init__, _poller, _store) over a client whose _read is replaced: cycle c of the
+    schedule is 'up' (every range not containing a bad address answers value(a) = a % 1000 + 7) or 'down' (every range raises
+    ModbusException).  Returns per-cycle attempted ranges, online flags after each cycle, and the final _data."""
+    import threading, logging
+    from cpppo.remote import plc_modbus as pm
+    logging.getLogger('cpppo.remote').setLevel(100)    # the harness provokes 'Failing'/'offline' warnings on purpose
+    from pymodbus.exceptions import ModbusException
+    log = []
+    snaps = {}
+
+    class P(pm.poller_modbus):
+        def _read(self, address, count, **kw):
+            c = self.counter
+            if c not in snaps:                 # first poll of cycle c: the state left by cycle c-1
+                snaps[c] = dict(online=self.online, data=dict(self._data))
+            if c >= len(schedule):
+                self.done = True
+            log.append((c, address, count))
+            if c >= len(schedule) or schedule[c] == 'down' or any(a in bad for a in range(address, address + count)):
+                raise ModbusException('no response')
+            return [a % 1000 + 7 for a in range(address, address + count)]
+
+    client = pm.modbus_client_tcp(host='localhost', port=1)
+    p = P('sim', client=client, reach=reach)
+    online = {}
+    try:
+        for a in addresses:
+            p.poll(a, rate=rate)
+        import time
+        t0 = time.time()
+        while len(schedule) not in snaps and time.time() - t0 < 30.0:
+            time.sleep(0.001)
+        done = p.counter
+    finally:
+        p.done = True
+        p.join(timeout=2.0)
+    last = snaps.get(len(schedule), dict(online=None, data={}))
+    return dict(log=log, cycles=min(done, len(schedule)) if len(schedule) in snaps else min(done, len(schedule) - 1), online=last['online'], data=last['data'])
+
+
+def poller_oracle(addresses, bad, reach, schedule, h):
+    from cpppo.remote.plc_modbus import merge
+    want = set(merge(((a, 1) for a in sorted(addresses)), reach=reach))
+    badl = []
+    if h['cycles'] < len(schedule):
+        return ['only %d of %d poll cycles completed within 30 s' % (h['cycles'], len(schedule))]
+    for c in range(len(schedule)):
+        got = [(a, n) for cc, a, n in h['log'] if cc == c]
+        if set(got) != want or len(got) != len(want):
+            badl.append('cycle %d (%s) polled %r, the merged ranges are %r' % (c, schedule[c], sorted(got), sorted(want)))
+            break
+    if set(h['data']) != set(addresses):
+        badl.append('stored addresses %r, requested %r' % (sorted(h['data']), sorted(addresses)))
+    good = [(a, n) for a, n in want if not any(x in bad for x in range(a, a + n))]
+    if schedule[-1] == 'up' and good:
+        if not h['online']:
+            badl.append('PLC still offline after a cycle in which %d ranges answer' % len(good))
+        for a, n in good:
+            for x in range(a, a + n):
+                if x in addresses and h['online'] and h['data'].get(x) != x % 1000 + 7:
+                    badl.append('register %d holds %r after an up cycle, the PLC answered %r' % (x, h['data'].get(x), x % 1000 + 7))
+                    break
+    if schedule[-1] == 'down' and h['online']:
+        badl.append('PLC online after a cycle in which every poll failed')
+    return badl[:3]
+
+
+def poller_cases(tier):
+    sets = [([1, 2, 40001, 40003], 1), ([1, 3, 10001, 40001], 0), ([40001, 40002, 40300], 100), ([5, 105, 10005, 30001, 40001], 10)]
+    scheds = [['up', 'up'], ['up', 'down', 'up', 'up'], ['down', 'up'], ['up', 'down', 'down', 'up', 'down']]
+    for addrs, reach in sets[:(2 if tier == 'quick' else 4)]:
+        for bad in [None] + list(addrs):
+            for sch in scheds[:(2 if tier == 'quick' else 4)]:
+                yield addrs, (set() if bad is None else {bad}), reach, sch
+
+
 def bounded(tier, seed):
     rng = random.Random(seed)
     ev = 0
@@ -319,11 +400,26 @@ def bounded(tier, seed):
                 if not shatter_oracle(address, count, limit, out[1] if out[0] == 'return' else None):
                     violations.append(dict(key='shatter %r' % ((address, count, limit),), observed=repr(out)[:300],
                                            required='exact tiling with pieces of 1..limit'))
+    # the poll loop: every merged range is attempted in every cycle, online state follows the cycle outcome, only requested registers are stored
+    npoll = 0
+    for addrs, bad, reach, sch in poller_cases(tier):
+        if len(violations) >= 8:
+            break
+        ev += 1
+        npoll += 1
+        try:
+            h = poller_history(addrs, bad, reach, sch)
+            badl = poller_oracle(addrs, bad, reach, sch, h)
+        except Exception as e:
+            h, badl = dict(log=[]), ['poller harness raised %s: %s' % (type(e).__name__, e)]
+        if badl:
+            violations.append(dict(key='poller addresses=%r failing=%r reach=%r cycles=%r' % (addrs, sorted(bad), reach, sch), observed=repr(h.get('log'))[:300], required='; '.join(badl)))
     if not samples:
         samples.append(dict(ranges=[(0, 3), (1, 1)], reach=1, limit=None, merged=_run_merge([(0, 3), (1, 1)], 1, None)[1]))
     return dict(evaluations=ev, distinct_nontrivial=len(distinct),
                 rule='merge: lists of 0..%d ranges (address offset 0..6, count 1..3) placed at bank positions 0 / 9996 / 40001, '
                      'reach and limit in {None,0,1,2,3}; all lists up to 2 ranges x all reach x limit {None,1,2}, sampled beyond; '
                      'oracle = set semantics of the property; distinct = distinct (ranges, reach, limit) with >= 2 ranges; '
-                     'shatter: address x count x limit lattice vs exact tiling' % (3 if tier == 'quick' else 4),
+                     'shatter: address x count x limit lattice vs exact tiling; poller: %d histories of the real poller_modbus thread '
+                     '(address sets x one failing register x up/down cycle schedules of 2..5 cycles)' % (3 if tier == 'quick' else 4, npoll),
                 exhaustive=False, samples=samples, violations=violations[:20])
